@@ -5,4 +5,4 @@ LEVEL = "proof"
 
 
 def run(chk, replay=None):
-    proccheck.run(chk, "PropC01", {'all_ok': 5, 'mixed': 3, 'failures': 1, 'multi': 1, 'exit': 1}, 260, 4000, [101, 102, 103], replay=replay)
+    proccheck.run(chk, "PropC01", {'all_ok': 5, 'mixed': 3, 'failures': 1, 'multi': 1, 'exit': 1, 'leftover': 1}, 260, 4000, [101, 102, 103], replay=replay)
